@@ -8,10 +8,10 @@ import json, os, subprocess, sys, shutil, glob, re
 
 ENV = dict(os.environ, GOFLAGS="-mod=mod", GOPROXY="off")
 PKGDIR = {"hseq_test": "hseq", "optics_test": "optics", "pipe_test": "pipe", "fork_test": "pipe/fork",
-          "pair_test": "trait/pair", "duct_test": "duct", "monoid_test": "pure/monoid", "ord_test": "pure/ord",
+          "pair_test": "trait/pair", "duct_test": "duct", "monoid_test": "pure/monoid", "ord_test": "pure/ord", "eq_test": "pure/eq", "semigroup_test": "pure/semigroup",
           "skiplist_test": "internal/maplike/skiplist", "pure_test": "internal/pipe"}
 MODULE = {"hseq": "hseq", "optics": "optics", "pipe": "pipe", "pipe/fork": "pipe", "trait/pair": "trait", "trait/seq": "trait",
-          "duct": "duct", "pure/monoid": "pure", "pure/ord": "pure"}
+          "duct": "duct", "pure/monoid": "pure", "pure/ord": "pure", "pure/eq": "pure", "pure/semigroup": "pure"}
 
 def sh(cmd, cwd=None, timeout=1500):
     p = subprocess.run(cmd, shell=True, cwd=cwd, env=ENV, stdout=subprocess.PIPE, stderr=subprocess.STDOUT, text=True, timeout=timeout)
